@@ -1,6 +1,7 @@
 import Proofs.DepGraph
 import Proofs.DepGraphMerge
 import Proofs.DepGraphTopo
+import Proofs.DepGraphInvert
 import Proofs.DepGraphTopoComplete
 /-!
 # C16 — the dependency graph mirrors a plain node/edge set under any edit history
@@ -12,12 +13,12 @@ Tier 1 (proved here, for every history): the RList index invariant is preserved 
 (`rlist_*_inv`), `get_index` is correct (`rlist_getIndex_spec`), and the four editing operations refine the
 spec (`addNode_refines`, `addDep_refines`, `removeDep_refines`, `removeNode_refines`), hence every history does
 (`history_refines`), with `dependencies` read through the abstraction (`dependencies_spec`).
-`merge`, `copy` and `+` refine the spec too (`multi_history_refines`: histories over any number of graph variables),
+`merge`, `copy`, `+` and `invert` refine the spec too (`multi_history_refines`: histories over any number of graph variables),
 and the topological sort is proved sound and total on every such graph (`topo_history`: returns exactly on acyclic
 graphs, every node once after all its dependencies, `cyclic` otherwise).
-`invert`, `graft`, `flatten`, `transitive_reduction/closure` are in the executable model and tied to the code by the
+`graft`, `flatten`, `transitive_reduction/closure` are in the executable model and tied to the code by the
 correspondence; their theorems are not proved yet (`multi_history_refines` is therefore the `…_partial` form of the
-property's first sentence: histories without inversions and grafts).  `c16_pinned_refuted` keeps the pinned `graft` (A19) refuted.
+property's first sentence: histories without grafts).  `c16_pinned_refuted` keeps the pinned `graft` (A19) refuted.
 -/
 namespace DG
 
@@ -147,7 +148,7 @@ theorem history_errors (ops : List Op) (op : Op) :
 /-- non-vacuity: a concrete history with a removal in the middle of the node list (swap with last) -/
 example : (run G.empty [.addDep 1 2, .addDep 2 3, .addDep 1 3, .removeNode 2]).edgePairs = [(1, 3)] := by decide
 
-/-! ### Histories over several graphs: edits, copies, merges, sums -/
+/-! ### Histories over several graphs: edits, copies, merges, sums, inversions -/
 
 /-- the public calls on a family of graph variables `g 0, g 1, …` (all empty at the start) -/
 inductive MOp where
@@ -155,6 +156,7 @@ inductive MOp where
   | copy (dst src : Nat)              -- g_dst = g_src.copy()
   | merge (dst src : Nat)             -- g_dst.merge(g_src)   (in place)
   | plus (dst a b : Nat)              -- g_dst = g_a + g_b
+  | invert (dst src : Nat)            -- g_dst = g_src.invert()
 
 def supd {α : Type} (f : Nat → α) (i : Nat) (v : α) : Nat → α := fun j => if j = i then v else f j
 
@@ -163,14 +165,18 @@ def mstep (st : Nat → G) : MOp → (Nat → G)
   | .copy d s => supd st d (st s).copy
   | .merge d s => match (st d).merge (st s) with | .ok g' => supd st d g' | .error _ => st
   | .plus d a b => match (st a).copy.merge (st b) with | .ok g' => supd st d g' | .error _ => st
+  | .invert d s => supd st d (st s).invert
 
 def Spec.union (s t : Spec) : Spec := ⟨fun z => s.N z ∨ t.N z, fun u w => s.E u w ∨ t.E u w⟩
+
+def Spec.reverse (s : Spec) : Spec := ⟨s.N, fun u w => s.E w u⟩
 
 def mspecStep (sp : Nat → Spec) : MOp → (Nat → Spec)
   | .edit i op => supd sp i (specStep (sp i) op).1
   | .copy d s => supd sp d (sp s)
   | .merge d s => supd sp d ((sp d).union (sp s))
   | .plus d a b => supd sp d ((sp a).union (sp b))
+  | .invert d s => supd sp d (sp s).reverse
 
 theorem merge_refines_spec {g h : G} {s t : Spec} (hg : Refines g s) (hh : Refines h t) :
     ∃ g', g.merge h = .ok g' ∧ Refines g' (s.union t) := by
@@ -182,6 +188,10 @@ theorem merge_refines_spec {g h : G} {s t : Spec} (hg : Refines g s) (hh : Refin
 theorem copy_refines_spec {g : G} {s : Spec} (hg : Refines g s) : Refines g.copy s := by
   obtain ⟨hi, hn, he⟩ := copy_refines hg.1
   exact ⟨hi, fun z => by rw [hn z, hg.2.1 z], fun u w => by rw [he u w, hg.2.2 u w]⟩
+
+theorem invert_refines_spec {g : G} {s : Spec} (hg : Refines g s) : Refines g.invert s.reverse := by
+  obtain ⟨hi, hn, he⟩ := invert_refines hg.1
+  exact ⟨hi, fun z => by rw [hn z, hg.2.1 z]; rfl, fun u w => by rw [he u w, hg.2.2 w u]; rfl⟩
 
 theorem supd_same {α : Type} (f : Nat → α) (i : Nat) (v : α) : supd f i v i = v := by simp [supd]
 theorem supd_other {α : Type} (f : Nat → α) (i j : Nat) (v : α) (h : j ≠ i) : supd f i v j = f j := by simp [supd, h]
@@ -199,6 +209,11 @@ theorem mstep_refines {st : Nat → G} {sp : Nat → Spec} (h : ∀ i, Refines (
     simp only [mstep, mspecStep]
     by_cases e : i = d
     · subst e; rw [supd_same, supd_same]; exact copy_refines_spec (h s)
+    · rw [supd_other _ _ _ _ e, supd_other _ _ _ _ e]; exact h i
+  | invert d s =>
+    simp only [mstep, mspecStep]
+    by_cases e : i = d
+    · subst e; rw [supd_same, supd_same]; exact invert_refines_spec (h s)
     · rw [supd_other _ _ _ _ e, supd_other _ _ _ _ e]; exact h i
   | merge d s =>
     obtain ⟨g', hm, hr⟩ := merge_refines_spec (h d) (h s)
